@@ -14,6 +14,12 @@ package eventbus
 
 //@ event lockShard := call lock:shard.mu
 //@ event unlockShard := call unlock:shard.mu
+//@ event publishCtx := call PublishContext
+//@ event wgWait := call WaitGroup.Wait
+//@ event busWait := call (*EventBus).Wait
+//@ event closeDone := call builtin.close
+//@ event storeClose := call interface{Close() error}.Close
+//@ event persistCall := call (*EventBus).persistEvent
 //@ event handlerCall := call handler
 //@ event panicHandlerCall := call PanicHandler
 //@ event OnHandlerStart := call Observability.OnHandlerStart
@@ -198,7 +204,7 @@ package eventbus
 //@ lockinv shard.mu(s) [RegInv.typed] {C01,C02} s.handlers != nil &&
 //@     (forall t type, i int :: {s.handlers[t][i]} 0 <= i && i < len(s.handlers[t]) ==> s.handlers[t][i] != nil && regTyped(s.handlers[t][i], t))
 //@ lockinv shard.mu(s) [RegInv.disjoint] {C01,C02} forall t1 type, t2 type :: t1 != t2 && sarr(s.handlers[t1]) != 0 ==> sarr(s.handlers[t1]) != sarr(s.handlers[t2])
-//@ lockinv shard.mu(s) [RegInv.alloc] {C01,C02} forall t type :: sarr(s.handlers[t]) == 0 || allocated(sarr(s.handlers[t]))
+//@ lockinv shard.mu(s) [RegInv.alloc] {C01,C02} forall t type :: wfslice(s.handlers[t]) && (sarr(s.handlers[t]) == 0 || allocated(sarr(s.handlers[t])))
 
 // Subscribe options: the only values of this type are nil and the four
 // literals below (internalHandler is unexported); each assigns its own field.
@@ -206,9 +212,15 @@ package eventbus
 //@   effect fields h once async sequential filter
 //@   effectstruct internalHandler
 //@   ensures h.filter == nil || payload(h.filter) != 0
+// Bus options.  PersistInv: on a bus with a store, the context-aware
+// before-publish hook is a function that persists (WithStore$1$1 or the
+// re-chaining literal of WithBeforePublishContext).  Every option preserves it.
+//@ def PersistInv(bus) bus.store != nil ==> bus.beforePublishCtx != nil && persists(bus.beforePublishCtx, bus)
 //@ callback Option(fn, bus)
+//@   requires bus != nil && PersistInv(bus)
 //@   effect fields bus panicHandler beforePublish afterPublish beforePublishCtx afterPublishCtx store subscriptionStore persistenceErrorHandler persistenceTimeout replayBatchSize observability
 //@   effectstruct EventBus
+//@   ensures PersistInv(bus)
 
 //@ func (*EventBus).getShard
 //@   props C01 C02
@@ -257,7 +269,18 @@ package eventbus
 //@   loop 1 iter [C04.retire] {C04,C01} len(onceHandlersToRemove) == iterold(len(onceHandlersToRemove)) + dClaim()
 //@        && (dClaim() == 1 ==> onceHandlersToRemove[len(onceHandlersToRemove)-1] == h)
 //@   loop 2 invariant [idx2] rangeindex__2 < len(onceHandlersToRemove) && -1 <= rangeindex__2
+//@   loop 2 invariant [rm.same] {C01,C02} sarr(handlers__2) == sarr(acq(shard.handlers[eventType])) && soff(handlers__2) == soff(acq(shard.handlers[eventType]))
+//@        && len(handlers__2) <= len(acq(shard.handlers[eventType])) && cap(handlers__2) == cap(acq(shard.handlers[eventType]))
+//@        && len(handlers__2) >= len(acq(shard.handlers[eventType])) - (rangeindex__2 + 1)
+//@   loop 2 invariant [rm.typed] {C01,C02} forall i int :: {handlers__2[i]} 0 <= i && i < len(handlers__2) ==> handlers__2[i] != nil && regTyped(handlers__2[i], typeOf(T))
+//@   loop 2 invariant [rm.frame] {C01,C02} forall a ref :: a != sarr(handlers__2) ==> elemrow(handlers__2, a) == acq(elemrow(handlers__2, a))
 //@   loop 3 invariant [idx3] rangeindex__3 < len(handlers__2) && -1 <= rangeindex__3
+//@   at unlock:shard.mu#W1 assert [cs.rm.frame] {C01,C02} forall t type, k int :: {shard.handlers[t][k]} t != eventType && 0 <= k && k < len(acq(shard.handlers[t])) ==>
+//@        len(shard.handlers[t]) == len(acq(shard.handlers[t])) && shard.handlers[t][k] == acq(shard.handlers[t][k])
+//@   at unlock:shard.mu#W1 assert [cs.rm.len] {C01,C02} len(shard.handlers[eventType]) <= len(acq(shard.handlers[eventType]))
+//@        && len(shard.handlers[eventType]) >= len(acq(shard.handlers[eventType])) - len(onceHandlersToRemove)
+//@   at unlock:shard.mu#R1 assert [cs.snapshot] {C01,C02} seqeq(handlersCopy, shard.handlers[eventType]) && fresh(sarr(handlersCopy))
+//@        && shard == bus.shards[shardIdx(typeOf(T))] && eventType == typeOf(T)
 
 // The goroutine started for an async handler.  It owns one credit of the
 // publish-local WaitGroup and one of bus.wg (both Add(1) precede `go`).
@@ -359,3 +382,143 @@ package eventbus
 //@        (forall j int :: 0 <= j && j < len(acq(shard.handlers[eventType])) ==> shard.handlers[eventType][j] == acq(shard.handlers[eventType][j]) && hptr(acq(shard.handlers[eventType][j])) != handlerPtr)
 //@   at unlock:shard.mu assert [cs.frame] {C01,C02} forall t type, k int :: {shard.handlers[t][k]} t != eventType && 0 <= k && k < len(acq(shard.handlers[t])) ==>
 //@        len(shard.handlers[t]) == len(acq(shard.handlers[t])) && shard.handlers[t][k] == acq(shard.handlers[t][k])
+
+// ---------------------------------------------------------------- publish / wait / shutdown
+//@ func Publish
+//@   props C01 C08
+//@   requires bus != nil && BusInv(bus)
+//@   ensures [delegates] cnt(publishCtx) == 1 && lastarg(publishCtx, 0) == bus && lastarg(publishCtx, 2) == event
+//@        && lastarg(publishCtx, 1, Iface) != nil && !doneAtEntry(lastarg(publishCtx, 1, Iface))
+
+//@ func (*EventBus).Wait
+//@   props C06
+//@   requires bus != nil
+//@   ensures [C06.waits] cnt(wgWait) == 1 && wgWaited(&bus.wg)
+
+// Shutdown$1: the goroutine that waits and then signals.  It is the only
+// closer of `done`, and closes it only after Wait returned.
+//@ func (*EventBus).Shutdown$1
+//@   props C06
+//@   requires bus != nil
+//@   at call:builtin.close assert [C06.close.afterWait] wgWaited(&bus.wg)
+//@   ensures [C06.close.once] cnt(closeDone) == 1 && cnt(busWait) == 1
+
+//@ method interface{Close() error}.Close(closer)
+//@   effect opaque
+
+//@ func (*EventBus).Shutdown
+//@   props C06
+//@   requires bus != nil && ctx != nil
+//@   chaninv done wgWaited(&bus.wg)
+//@   ensures [C06.shutdown.nil] result == nil ==> wgWaited(&bus.wg)
+//@   at call:interface{Close() error}.Close assert [C06.shutdown.closeAfterWait] wgWaited(&bus.wg) && cnt(storeClose) == 0
+//@   ensures [C06.shutdown.closeErr] cnt(storeClose) == 1 && lastres(storeClose, Iface) != nil ==> result != nil
+//@   ensures [C06.shutdown.ctx] cnt(storeClose) <= 1 && (ctxSeenDone(ctx) && cnt(storeClose) == 0 ==> result != nil)
+
+// ---------------------------------------------------------------- construction and options
+//@ func newUpcastRegistry
+//@   props C16
+//@   ensures [fresh] result != nil && fresh(result)
+
+//@ func New
+//@   props C01 C09
+//@   requires forall k int :: {opts[k]} 0 <= k && k < len(opts) ==> opts[k] != nil
+//@   loop 1 invariant [shards] 0 <= i && i <= 32 && bus != nil && fresh(bus) && (forall j int :: {bus.shards[j]} 0 <= j && j < i ==> bus.shards[j] != nil)
+//@   loop 2 invariant [idx] rangeindex < len(opts) && -1 <= rangeindex
+//@   loop 2 invariant [C09.persistinv] {C09} PersistInv(bus)
+//@   ensures [businv] {C01} result != nil && BusInv(result)
+//@   ensures [C09.persistinv] {C09} PersistInv(result)
+
+// The hook WithStore installs: runs the previously installed hook (if any)
+// first, then persists exactly once, synchronously.
+//@ func WithStore$1$1
+//@   props C09
+//@   requires bus != nil && ctx != nil
+//@   ensures [C09.persistsOnce] cnt(persistCall) == 1 && lastarg(persistCall, 0) == bus && lastarg(persistCall, 1, Iface) == ctx
+//@        && lastarg(persistCall, 2) == eventType && lastarg(persistCall, 3, Iface) == event
+//@   ensures [C09.chain] cnt(beforeHookCtx) == ite(existingHook != nil, 1, 0)
+//@   at call:(*EventBus).persistEvent assert [C09.chain.first] cnt(beforeHookCtx) == ite(existingHook != nil, 1, 0)
+//@   fact persists(self, bus)
+
+//@ func WithStore$1
+//@   props C09
+//@   requires bus != nil
+//@   ensures [C09.option.preserves] PersistInv(bus) && bus.store == store
+//@   ensures [C01.option.frame] {C01} bus.shards == old(bus.shards)
+
+// The re-chaining hook WithBeforePublishContext installs when a store is
+// already configured: the user's hook first, then persistence, exactly once.
+//@ func WithBeforePublishContext$1$1
+//@   props C09
+//@   requires bus != nil && ctx != nil
+//@   ensures [C09.persistsOnce] cnt(persistCall) == 1 && lastarg(persistCall, 0) == bus && lastarg(persistCall, 1, Iface) == ctx
+//@        && lastarg(persistCall, 2) == eventType && lastarg(persistCall, 3, Iface) == event
+//@   ensures [C09.chain] cnt(beforeHookCtx) == ite(hook != nil, 1, 0)
+//@   at call:(*EventBus).persistEvent assert [C09.chain.first] cnt(beforeHookCtx) == ite(hook != nil, 1, 0)
+//@   fact persists(self, bus)
+
+//@ func WithBeforePublishContext$1
+//@   props C09
+//@   requires bus != nil && PersistInv(bus)
+//@   ensures [C09.option.preserves] PersistInv(bus)
+//@   ensures [C01.option.frame] {C01} bus.shards == old(bus.shards)
+
+//@ func WithPanicHandler$1
+//@   props C09
+//@   requires bus != nil && PersistInv(bus) && bus.upcastRegistry != nil
+//@   ensures [C09.option.preserves] PersistInv(bus)
+//@   ensures [C01.option.frame] {C01} bus.shards == old(bus.shards)
+
+//@ func WithBeforePublish$1
+//@   props C09
+//@   requires bus != nil && PersistInv(bus) && bus.upcastRegistry != nil
+//@   ensures [C09.option.preserves] PersistInv(bus)
+//@   ensures [C01.option.frame] {C01} bus.shards == old(bus.shards)
+
+//@ func WithAfterPublish$1
+//@   props C09
+//@   requires bus != nil && PersistInv(bus) && bus.upcastRegistry != nil
+//@   ensures [C09.option.preserves] PersistInv(bus)
+//@   ensures [C01.option.frame] {C01} bus.shards == old(bus.shards)
+
+//@ func WithAfterPublishContext$1
+//@   props C09
+//@   requires bus != nil && PersistInv(bus) && bus.upcastRegistry != nil
+//@   ensures [C09.option.preserves] PersistInv(bus)
+//@   ensures [C01.option.frame] {C01} bus.shards == old(bus.shards)
+
+//@ func WithPersistenceErrorHandler$1
+//@   props C09
+//@   requires bus != nil && PersistInv(bus) && bus.upcastRegistry != nil
+//@   ensures [C09.option.preserves] PersistInv(bus)
+//@   ensures [C01.option.frame] {C01} bus.shards == old(bus.shards)
+
+//@ func WithPersistenceTimeout$1
+//@   props C09
+//@   requires bus != nil && PersistInv(bus) && bus.upcastRegistry != nil
+//@   ensures [C09.option.preserves] PersistInv(bus)
+//@   ensures [C01.option.frame] {C01} bus.shards == old(bus.shards)
+
+//@ func WithReplayBatchSize$1
+//@   props C09
+//@   requires bus != nil && PersistInv(bus) && bus.upcastRegistry != nil
+//@   ensures [C09.option.preserves] PersistInv(bus)
+//@   ensures [C01.option.frame] {C01} bus.shards == old(bus.shards)
+
+//@ func WithObservability$1
+//@   props C09
+//@   requires bus != nil && PersistInv(bus) && bus.upcastRegistry != nil
+//@   ensures [C09.option.preserves] PersistInv(bus)
+//@   ensures [C01.option.frame] {C01} bus.shards == old(bus.shards)
+
+//@ func WithSubscriptionStore$1
+//@   props C09
+//@   requires bus != nil && PersistInv(bus) && bus.upcastRegistry != nil
+//@   ensures [C09.option.preserves] PersistInv(bus)
+//@   ensures [C01.option.frame] {C01} bus.shards == old(bus.shards)
+
+//@ func WithUpcastErrorHandler$1
+//@   props C09
+//@   requires bus != nil && PersistInv(bus) && bus.upcastRegistry != nil
+//@   ensures [C09.option.preserves] PersistInv(bus)
+//@   ensures [C01.option.frame] {C01} bus.shards == old(bus.shards)
